@@ -65,6 +65,15 @@ pub fn std_req() -> impl Strategy<Value = StdReq> {
     any::<bool>().prop_flat_map(std_req_of)
 }
 
+/// a well-formed request of ANY aligned total length around the limits (992..=1040 and 1480..=1528 bytes):
+/// correct framing and padding, only the size decides
+pub fn sized_req() -> impl Strategy<Value = StdReq> {
+    (std_req(), prop_oneof![248u16..=260, 370u16..=382]).prop_map(|(mut r, words)| {
+        r.words = words;
+        r
+    })
+}
+
 #[derive(Debug, Clone, Serialize, Deserialize)]
 pub enum FieldMut {
     NoNonc,
@@ -238,7 +247,9 @@ impl Dgram {
     pub fn family(&self) -> &'static str {
         match self {
             Dgram::Std(s) => {
-                if s.ietf {
+                if s.words < 256 || s.words > 375 {
+                    "wellformed-but-out-of-size-range"
+                } else if s.ietf {
                     "std-ietf"
                 } else {
                     "std-classic"
@@ -306,6 +317,7 @@ fn nonce_words() -> impl Strategy<Value = u16> {
 pub fn any_dgram() -> impl Strategy<Value = Dgram> {
     prop_oneof![
         6 => std_req().prop_map(Dgram::Std),
+        3 => sized_req().prop_map(Dgram::Std),
         3 => (any::<bool>(), nonce_words(), prop_oneof![Just(256u16), Just(375u16), 256u16..=375], any::<u8>()).prop_map(|(ietf, nonce_words, words, fill)| Dgram::NonceLen { ietf, nonce_words, words, fill }),
         3 => (std_req(), prop_oneof![-8i8..=8, Just(-4i8), Just(4i8)]).prop_map(|(base, delta)| Dgram::Delta { base, delta }),
         2 => (std_req(), interesting_len(), any::<u8>()).prop_map(|(base, len, fill)| Dgram::Resize { base, len, fill }),
